@@ -6,6 +6,6 @@ CONSTANTS
   READY_DRAINS = TRUE
   MaxTok = 3
   MaxPairTok = 1
-  Toks = {"x", "u", "LF", "CR", "CRLF", "SP", "COLON", "DATA", "EV", "ID", "RETRY", "BOM"}
+  Toks = {"x", "u", "n", "LF", "CR", "CRLF", "SP", "COLON", "DATA", "EV", "ID", "RETRY", "BOM"}
 INVARIANTS WantedOK ImplDev DevSharp NormOK
 CHECK_DEADLOCK FALSE
